@@ -221,6 +221,16 @@ def run(ctx) -> None:
                 actions = [i for i in range(3) if mask >> i & 1]
                 rng.shuffle(actions)
                 env_case(ctx, {"n": 3, "family": fam, "values": values, "computer": comp, "gap": gapname, "actions": actions})
+    # always: env probes on superadditive games with a few values changed (collapsed intervals whose true value differs)
+    for _ in range(8 if quick else 40):
+        vals_ = gen.sa_game(rng, 4, rng.choice(["addsur_int", "int", "convex_int"]))[0]
+        for m_ in rng.sample(gen.explorable(4), rng.randint(1, 3)):
+            vals_[m_] += rng.choice([-3, -2, -1, 1, 2, 3])
+        acts_ = list(range(10))
+        rng.shuffle(acts_)
+        env_case(ctx, {"n": 4, "family": "sa_perturbed", "values": vals_, "computer": rng.choice(["superadditive", "superadditive_cached"]),
+                       "gap": rng.choice(list(GAPS)), "actions": acts_[: rng.randint(0, 5)]})
+        ctx.count("env_cases_on_perturbed_games")
     fresh_budget = [12 if quick else 150]          # fresh-interpreter canonical tables (about 0.3 s each)
     while not ctx.out_of_time(2.0):
         n = rng.choice([3, 4, 4, 5, 5, 6, 7])
